@@ -92,6 +92,8 @@ pub enum T0Pat {
     RandomExtremes,
     Random,
     Zero,
+    /// the given percentage of coefficients at a random range extreme, the rest uniformly random
+    PartialExtremes(u8),
 }
 
 pub fn s_poly(g: &mut Prng, eta: i64, pat: SPat) -> Poly {
@@ -112,6 +114,13 @@ pub fn t0_poly(g: &mut Prng, pat: T0Pat) -> Poly {
         T0Pat::RandomExtremes => if g.below(2) == 0 { top } else { -top + 1 },
         T0Pat::Random => g.range(-top + 1, top),
         T0Pat::Zero => 0,
+        T0Pat::PartialExtremes(pc) => {
+            if g.below(100) < u64::from(pc) {
+                if g.below(2) == 0 { top } else { -top + 1 }
+            } else {
+                g.range(-top + 1, top)
+            }
+        }
     })
 }
 
